@@ -60,24 +60,6 @@ theorem cancel_later_is_plain (b : VBody) (s : K (Co b.σ)) (es : List Ev) :
     runK (contResume .repaired b) (s.map .relay) es = (runK (coStep b) s es).map .relay :=
   lockstep .repaired b s es
 
-theorem Co.resume_susp_log (b : VBody) (co : Co b.σ) (s : b.σ) (hs : co.st = .susp s) (r : Resume) (F : Futs) :
-    (Co.resume b co r F).1.log = (r, F) :: co.log := by
-  unfold Co.resume
-  rw [hs]
-  simp only [Co.after]
-  split <;> rfl
-
-theorem taskFinish_co {κ : Type} (t : Task) (x : κ × Out × Futs) : (taskFinish t x).co = x.1 := by
-  obtain ⟨a, o, F⟩ := x
-  cases o with
-  | ret v => rfl
-  | raise e => rfl
-  | yield y =>
-    cases y with
-    | bare => rfl
-    | tok n => rfl
-    | fut f => simp only [taskFinish]; split <;> rfl
-
 /-- **The cancel reaches the body, at its suspension point.**  State in the window: body suspended
     (`co.st = susp s`), continuation not resumed, a `cancel()` pending.  At the continuation Task's
     first loop iteration
